@@ -227,6 +227,28 @@ def step_only_unblocked(R, ro, rule):
     hm = ro.handle_task_method()
     callers = [(f, c) for f, c, k in R.res.callers_of(ct) if k == "resolved"]
     R.need(callers, "role: nobody calls %s" % ct.qualname)
+    st_ = ro.step_method_task()
+    own_tests = [n for n in cfg_of(ct).nodes if n.kind == "test" and q.atom_test(n.ast)[0] == "call" and str(q.atom_test(n.ast)[1]).endswith(".is_blocked")]
+    if own_tests:
+        # the stepping method is (after a helper was expanded into it) the one that asks is_blocked() itself: the step call is
+        # guarded inside it, its callers hand it tasks in any state
+        ccfg = cfg_of(ct)
+        for sn, sc in ro.calls_to(ct, [st_]):
+            recv = q.attr_call(sc)[0]
+            arg = q.dotted(recv) if recv is not None else None
+
+            def unblocked_own(nd, arg=arg):
+                if nd.kind != "test":
+                    return None
+                k, s_, pos = q.atom_test(nd.ast)
+                if k == "call" and s_ == "%s.is_blocked" % arg:
+                    return "F" if pos else "T"
+                return None
+            p = kit.path_avoiding_guard(ccfg, [sn], unblocked_own, N)
+            R.check(p is None, rule, "%s:%s" % (ct.qualname, q.stmt_key(sc)[:40]), R.site(ct, sc),
+                    "the task is continued only on the not-blocked edge of %s.is_blocked()" % arg,
+                    "a task can be continued while one of the futures it yielded is still uncomputed", ccfg.fmt_path(p) if p else None)
+        callers = []
     for f, call in callers:
         cfg = cfg_of(f)
         arg = q.dotted(call.args[0]) if call.args else None
